@@ -65,7 +65,7 @@ def check(chk):
         _sort_cover(chk, cls)
         _sort_state(chk, cls)
     _post_compute_callers(chk)
-    chk.floor("PAIR.scores", 6)
+    chk.floor("PAIR.scores", 4)
     chk.floor("PAIR.helper", 2)
     chk.floor("SORT.key", 2)
     chk.floor("SORT.cover", 2)
@@ -75,18 +75,21 @@ def check(chk):
 
 
 def _pairing(chk, fn: FuncInfo):
-    ff = FuncFacts.of(fn)
+    from .common import class_closure, closure_paths
     n = 0
-    for c in ff.calls():
+    clo = class_closure(chk.pm, fn.cls, fn) if fn.cls is not None else [fn]
+    for g in clo:
+      for c in FuncFacts.of(g).calls():
         if not is_dot_call(c):
             continue
         for opnd in dot_operands(c):
-            ps = [p for p in ff.paths(opnd, spine_only=True) if _is_rot_source(p)]
+            aps = FuncFacts.of(g).paths(opnd, spine_only=True) if g is fn else closure_paths(chk.pm, fn.cls, fn, g, opnd, True, 0, clo)
+            ps = [p for p in aps if _is_rot_source(p)]
             if not ps:
                 continue
             n += 1
-            via = all(any(o.kind == "arg" and o.name.endswith(HELPER) for o in p.ops) for p in ps)
-            chk.check(via, "PAIR.scores", fn, c,
+            via = all(any(o.kind in ("arg", "via") and o.name.endswith(HELPER) for o in p.ops) for p in ps)
+            chk.check(via, "PAIR.scores", g, c,
                       why="scores are multiplied by the rotation matrix itself; they must be rotated with its inverse conjugate transpose "
                           f"(through {HELPER}), otherwise rotated scores no longer reconstruct the data for power > 1")
     if n == 0:
@@ -99,21 +102,40 @@ def _helper(chk, cls):
     ff = FuncFacts.of(fn)
     rets = [n for n in walk_no_nested(fn.node) if isinstance(n, ast.Return)]
     chk.require(len(rets) >= 1, f"{fn.qualname}: no return")
-    # the value returned when power > 1
-    inv_ok = conj_ok = guard_ok = False
-    for st in ff.statements():
-        if isinstance(st, ast.If):
-            t = st.test
-            if isinstance(t, ast.Compare) and isinstance(t.ops[0], (ast.Gt, ast.GtE)) and "power" in norm(t.left):
-                thr = t.comparators[0]
-                guard_ok = isinstance(thr, ast.Constant) and ((isinstance(t.ops[0], ast.Gt) and thr.value == 1) or (isinstance(t.ops[0], ast.GtE) and thr.value == 2))
-                body_calls = [c for s in st.body for c in ast.walk(s) if isinstance(c, ast.Call)]
-                inv_ok = any((dotted(c.func) or "").endswith("apply_ufunc") and c.args and (dotted(c.args[0]) or "").endswith("linalg.inv") for c in body_calls) or any(
-                    (dotted(c.func) or "").endswith("linalg.inv") for c in body_calls)
-                conj_ok = any(isinstance(c.func, ast.Attribute) and c.func.attr in ("conj", "conjugate") for c in body_calls) and any(
-                    isinstance(c.func, ast.Attribute) and c.func.attr == "transpose" for c in body_calls)
-    chk.check(guard_ok and inv_ok and conj_ok, "PAIR.helper", fn, fn.node, construct=f"{fn.qualname}: power > 1 -> inv, conj, transpose",
-              why=f"for power > 1 the helper must return the inverse conjugate transpose of the rotation matrix (guard {guard_ok}, inverse {inv_ok}, conj-transpose {conj_ok})")
+    # the value returned when power > 1: parameter -> inverse -> conj -> transpose, computed under power > 1 only
+    from .common import inline_locals
+
+    def power_gt_1(g) -> bool:
+        t, pol = inline_locals(ff, g.test), g.polarity
+        while isinstance(t, ast.UnaryOp) and isinstance(t.op, ast.Not):
+            t, pol = t.operand, not pol
+        if not (isinstance(t, ast.Compare) and len(t.ops) == 1 and "power" in norm(t.left)):
+            return False
+        thr = t.comparators[0]
+        if not isinstance(thr, ast.Constant):
+            return False
+        op = t.ops[0]
+        if pol:
+            return (isinstance(op, ast.Gt) and thr.value == 1) or (isinstance(op, ast.GtE) and thr.value == 2)
+        return (isinstance(op, ast.LtE) and thr.value == 1) or (isinstance(op, ast.Lt) and thr.value == 2)
+
+    inv_ok = conj_ok = guard_ok = plain_ok = False
+    for r in rets:
+        if r.value is None:
+            continue
+        for p in ff.paths(r.value, spine_only=True):
+            if p.atom.kind != "param":
+                continue
+            invs = [o for o in p.ops if o.kind == "arg" and (o.name.endswith("linalg.inv") or (o.name.endswith("apply_ufunc") and o.node.args and (dotted(o.node.args[0]) or "").endswith("linalg.inv")))]
+            if not invs:
+                if not [o for o in p.ops if o.kind in ("arg", "method", "binop")]:
+                    plain_ok = True
+                continue
+            inv_ok = True
+            conj_ok = conj_ok or (p.count("method", "conj") + p.count("method", "conjugate")) % 2 == 1 and (p.has_op("method", "transpose") or p.has_op("attr", "T"))
+            guard_ok = guard_ok or any(power_gt_1(g) for g in ff.guards(invs[0].node))
+    chk.check(guard_ok and inv_ok and conj_ok and plain_ok, "PAIR.helper", fn, fn.node, construct=f"{fn.qualname}: power > 1 -> inv, conj, transpose",
+              why=f"for power > 1 the helper must return the inverse conjugate transpose of the rotation matrix and the matrix itself otherwise (guard {guard_ok}, inverse {inv_ok}, conj-transpose {conj_ok}, identity for power 1 {plain_ok})")
     # the returned value is the (possibly replaced) parameter
     ps = ff.paths(rets[-1].value, spine_only=True)
     chk.check(any(p.atom.kind == "param" for p in ps), "PAIR.helper.returns", fn, rets[-1], why="the helper must return the matrix derived from its argument")
@@ -144,7 +166,7 @@ def _sign_transform(chk, tr: FuncInfo):
             sinks.append((n.args[0], n))
     seen = 0
     for e, node in sinks:
-        ps = ff.paths(e, spine_only=False)
+        ps = ff.paths(e, spine_only=False, follow=True)
         if not any(_is_rot_source(p) for p in ps):
             continue
         seen += 1
@@ -154,9 +176,12 @@ def _sign_transform(chk, tr: FuncInfo):
 
 
 def _resort_in_transform(chk, tr: FuncInfo):
-    ff = FuncFacts.of(tr)
+    from .common import class_closure
     n = 0
-    for c in ff.calls():
+    # the re-sort may live in a private helper of the class that transform calls
+    sites = [(g, c) for g in (class_closure(chk.pm, tr.cls, tr) if tr.cls is not None else [tr]) for c in FuncFacts.of(g).calls()]
+    for g, c in sites:
+        ff = FuncFacts.of(g)
         if isinstance(c.func, ast.Attribute) and c.func.attr == "isel":
             m = call_kwargs(c).get("mode")
             if m is None:
@@ -166,7 +191,7 @@ def _resort_in_transform(chk, tr: FuncInfo):
             n += 1
             gs = ff.guards(c)
             ok = any(is_self_attr(g.test, "sorted") and g.polarity for g in gs)
-            chk.check(ok, "SORT.state.transform", tr, c, why="transform must re-sort the projections exactly when the model has been sorted (if self.sorted)")
+            chk.check(ok, "SORT.state.transform", g, c, why="transform must re-sort the projections exactly when the model has been sorted (if self.sorted)")
             # same re-indexing as _sort_by_variance: positional isel by the stored index, then the old labels re-attached
             par = ff.cfg.parents().get(id(c))
             relabel = None
@@ -177,7 +202,7 @@ def _resort_in_transform(chk, tr: FuncInfo):
             okr = relabel is not None and isinstance(relabel, ast.Attribute) and relabel.attr == "mode" and norm(relabel.value) == norm(c.func.value)
             idx = call_kwargs(c).get("mode")
             okv = isinstance(idx, ast.Attribute) and idx.attr == "values"
-            chk.check(okr and okv, "SORT.state.transform.same", tr, c,
+            chk.check(okr and okv, "SORT.state.transform.same", g, c,
                       why="transform must re-order its projections exactly as _sort_by_variance re-orders the stored entries: "
                           ".isel(mode=idx_modes_sorted.values).assign_coords(mode=<old mode labels>); anything else applies another permutation")
     chk.check(n >= 1, "SORT.state.transform.exists", tr, tr.node, construct=f"{tr.qualname}: re-sort of projections",
